@@ -192,4 +192,242 @@ theorem sortByKey_of_increasing (xs : List (Nat × Bytes)) (h : KeysIncreasing x
       rw [sortByKey, ih h.2]
       simp [insertByKey, h.1]
 
+/-! ### one field -/
+
+/-- kinds that read up to the end of the (cut) buffer -/
+def FKind.isTail : FKind → Bool
+  | .rest | .strs | .tlvs .. => true
+  | _ => false
+
+/-- the `tlvs` head is not empty (otherwise the loop could not advance) -/
+def FKind.headOK : FKind → Bool
+  | .tlvs kw lw _ => decide (0 < kw + lw)
+  | _ => true
+
+/-- kinds whose encoding of a fitting value has at least one byte -/
+def FKind.minOne : FKind → Bool
+  | .int w => decide (1 ≤ w)
+  | .charstr | .name _ | .strs => true
+  | _ => false
+
+/-- a tail kind may only be the last field -/
+def tailLast : List FKind → Bool
+  | [] => true
+  | [_] => true
+  | k :: ks => !k.isTail && tailLast ks
+
+theorem encStrs_length (ss : List Bytes) :
+    (encStrs ss).length = (ss.map (·.length + 1)).sum := by
+  induction ss with
+  | nil => rfl
+  | cons s ss ih => simp [encStrs, CharStr.write, ih]; omega
+
+/-- `len()` of a field is the length of its plain encoding -/
+theorem lenField_eq (k : FKind) (v : Val) (hv : FieldOK k v) :
+    lenField k v = (encField k v).length := by
+  cases k <;> cases v <;> simp only [FieldOK] at hv <;> simp only [lenField, encField]
+  · simp
+  · simp [CharStr.write]
+  · rw [Name.write_length]
+  · split
+    · rfl
+    · exact (encStrs_length _).symm
+  · rename_i kw lw strict xs
+    rw [encTlvs_length]
+    cases strict
+    · simp
+    · simp [sortByKey_of_increasing xs (hv.2 rfl)]
+
+theorem lenAll_eq (ks : List FKind) : ∀ (vs : List Val), AllOK ks vs →
+    lenAll ks vs = (encAll ks vs).length := by
+  induction ks with
+  | nil => intro vs h; cases vs <;> simp [lenAll, encAll]
+  | cons k ks ih =>
+    intro vs h
+    cases vs with
+    | nil => simp [AllOK] at h
+    | cons v vs =>
+      simp only [AllOK] at h
+      simp [lenAll, encAll, lenField_eq k v h.1, ih vs h.2]
+
+/-- what a field writer guarantees (compare `NameSpec`) -/
+structure FieldSpec (out : Bytes) (k : FKind) (v : Val) (b : Bytes) (t' : Table) : Prop where
+  dec : ∀ post, (k.isTail = true → post = []) →
+    decField (out ++ (b ++ post)) k out.length = .ok (v, out.length + b.length)
+  inv : TInv (out ++ b) t'
+  le : b.length ≤ (encField k v).length
+  pos : k.minOne = true → 1 ≤ b.length
+
+theorem encFieldG_false (k : FKind) (v : Val) (off : Nat) (t : Table) :
+    encFieldG false k v off t = (encField k v, t) := by
+  unfold encFieldG
+  split
+  · simp [nameG, encField]
+  · rfl
+
+theorem decField_name (d : Bytes) (b : Bool) (pos : Nat) :
+    decField d (.name b) pos = (do
+      let (n, p) ← Name.parse d pos
+      pure (.name n, p)) := rfl
+
+theorem NameSpec.toField {out : Bytes} {n : Name} {b : Bytes} {t' : Table} (cb : Bool)
+    (h : NameSpec out n b t') (hn : Name.WF n) : FieldSpec out (.name cb) (.name n) b t' := by
+  refine ⟨?_, h.inv, ?_, fun _ => h.pos⟩
+  · intro post _
+    rw [decField_name, h.parse hn.2 post]
+    rfl
+  · simp only [encField]; rw [Name.write_length]; exact h.le
+
+theorem encFieldG_spec (c : Bool) (k : FKind) (v : Val) (off : Nat) (t : Table) (out : Bytes)
+    (hv : FieldOK k v) (hk : k.headOK = true) (hlen : out.length = off) (hinv : TInv out t) :
+    FieldSpec out k v (encFieldG c k v off t).1 (encFieldG c k v off t).2 := by
+  cases k <;> cases v <;> simp only [FieldOK] at hv
+  · -- int
+    rename_i w n
+    have e : encFieldG c (.int w) (.int n) off t = (beN w n, t) := rfl
+    rw [e]
+    refine ⟨?_, hinv.append _, Nat.le_refl _, ?_⟩
+    · intro post _
+      simp only [decField]
+      rw [if_neg (by simp)]
+      rw [slice_at (a := out) (m := beN w n) (z := post) rfl rfl (by simp)]
+      simp [deN_beN w n hv]
+    · simp [FKind.minOne]
+  · -- charstr
+    rename_i s
+    have e : encFieldG c .charstr (.bytes s) off t = (CharStr.write s, t) := rfl
+    rw [e]
+    refine ⟨?_, hinv.append _, Nat.le_refl _, fun _ => by simp [CharStr.write]⟩
+    intro post _
+    simp only [decField]
+    rw [CharStr.parse_frame out s post hv]
+    simp [CharStr.write]
+  · -- name
+    rename_i cb n
+    cases cb
+    · have e : encFieldG c (.name false) (.name n) off t = (Name.write n, t) := rfl
+      rw [e]
+      have := nameG_spec false n off t out hv.labelsOK hlen hinv
+      rw [nameG_false] at this
+      exact this.toField false hv
+    · have e : encFieldG c (.name true) (.name n) off t = nameG c n off t := rfl
+      rw [e]
+      exact (nameG_spec c n off t out hv.labelsOK hlen hinv).toField true hv
+  · -- rest
+    rename_i b
+    have e : encFieldG c .rest (.bytes b) off t = (b, t) := rfl
+    rw [e]
+    refine ⟨?_, hinv.append _, Nat.le_refl _, fun h => by simp [FKind.minOne] at h⟩
+    intro post hpost
+    rw [hpost rfl]
+    simp only [decField, List.append_nil]
+    rw [slice_at (a := out) (m := b) (z := []) (by simp) rfl (by simp)]
+    simp
+  · -- strs
+    rename_i ss
+    have hne : ss.isEmpty = false := by cases ss <;> simp_all
+    have e : encFieldG c .strs (.strs ss) off t = (encStrs ss, t) := by
+      show (encField .strs (.strs ss), t) = _
+      simp [encField, hne]
+    rw [e]
+    refine ⟨?_, hinv.append _, by simp [encField, hne], ?_⟩
+    · intro post hpost
+      rw [hpost rfl]
+      simp only [decField, List.append_nil]
+      rw [strsLoop_frame ss out [] hv.2]
+      simp
+    · intro _
+      cases ss with
+      | nil => simp at hne
+      | cons s ss => simp [encStrs, CharStr.write]
+  · -- tlvs
+    rename_i kw lw strict xs
+    have hsort : (if strict then sortByKey xs else xs) = xs := by
+      cases strict
+      · rfl
+      · simp [sortByKey_of_increasing xs (hv.2 rfl)]
+    have e : encFieldG c (.tlvs kw lw strict) (.tlvs xs) off t = (encTlvs kw lw xs, t) := by
+      show (encField (.tlvs kw lw strict) (.tlvs xs), t) = _
+      simp only [encField, hsort]
+    rw [e]
+    refine ⟨?_, hinv.append _, by simp only [encField, hsort]; exact Nat.le_refl _,
+      fun h => by simp [FKind.minOne] at h⟩
+    intro post hpost
+    rw [hpost rfl]
+    simp only [decField, List.append_nil]
+    rw [tlvsLoop_frame kw lw strict (by simpa [FKind.headOK] using hk) xs out [] hv.1
+      (fun hs => ⟨hv.2 hs, by simp⟩)]
+    simp
+
+/-! ### all fields of a schema -/
+
+theorem encAllG_false (ks : List FKind) : ∀ (vs : List Val) (off : Nat) (t : Table),
+    encAllG false ks vs off t = (encAll ks vs, t) := by
+  induction ks with
+  | nil => intro vs off t; cases vs <;> rfl
+  | cons k ks ih =>
+    intro vs off t
+    cases vs with
+    | nil => rfl
+    | cons v vs => simp [encAllG, encAll, encFieldG_false, ih]
+
+structure AllSpec (out : Bytes) (ks : List FKind) (vs : List Val) (b : Bytes) (t' : Table) :
+    Prop where
+  dec : decAll (out ++ b) ks out.length = .ok (vs, out.length + b.length)
+  inv : TInv (out ++ b) t'
+  le : b.length ≤ (encAll ks vs).length
+  pos : ∀ k ks', ks = k :: ks' → k.minOne = true → 1 ≤ b.length
+
+theorem encAllG_spec (c : Bool) (ks : List FKind) : ∀ (vs : List Val) (off : Nat) (t : Table)
+    (out : Bytes), AllOK ks vs → tailLast ks = true → (∀ k ∈ ks, k.headOK = true) →
+    out.length = off → TInv out t →
+    AllSpec out ks vs (encAllG c ks vs off t).1 (encAllG c ks vs off t).2 := by
+  induction ks with
+  | nil =>
+    intro vs off t out hok _ _ hlen hinv
+    cases vs with
+    | cons v vs => simp [AllOK] at hok
+    | nil =>
+      simp only [encAllG]
+      exact ⟨by simp [decAll], hinv.append _, by simp, fun k ks' h => by cases h⟩
+  | cons k ks ih =>
+    intro vs off t out hok htl hhd hlen hinv
+    cases vs with
+    | nil => simp [AllOK] at hok
+    | cons v vs =>
+      simp only [AllOK] at hok
+      have hf := encFieldG_spec c k v off t out hok.1 (hhd k (by simp)) hlen hinv
+      simp only [encAllG]
+      generalize encFieldG c k v off t = a at hf ⊢
+      have htl' : tailLast ks = true := by
+        cases ks with
+        | nil => rfl
+        | cons k2 ks2 => simp [tailLast] at htl; exact htl.2
+      have hr := ih vs (off + a.1.length) a.2 (out ++ a.1) hok.2 htl'
+        (fun k' hk' => hhd k' (by simp [hk'])) (by simp [hlen]) hf.inv
+      generalize encAllG c ks vs (off + a.1.length) a.2 = r at hr ⊢
+      have hdec : decField (out ++ (a.1 ++ r.1)) k out.length = .ok (v, out.length + a.1.length) := by
+        apply hf.dec
+        intro hkt
+        cases ks with
+        | cons k2 ks2 => simp [tailLast, hkt] at htl
+        | nil =>
+          cases vs with
+          | nil => have := hr.le; simp [encAll] at this; exact this
+          | cons v2 vs2 => simp [AllOK] at hok
+      refine ⟨?_, ?_, ?_, ?_⟩
+      · simp only [decAll]
+        rw [hdec]
+        simp only [Out.bind_ok]
+        have e := hr.dec
+        simp only [List.append_assoc, List.length_append] at e
+        rw [e]
+        simp [Nat.add_assoc]
+      · have := hr.inv; simpa using this
+      · have h1 := hf.le; have h2 := hr.le; simp [encAll]; omega
+      · intro k' ks' hks hmin
+        cases hks
+        have := hf.pos hmin
+        simp; omega
+
 end Dns
